@@ -23,6 +23,7 @@ import signal
 
 from ..impl import corevm as cv
 from ..impl import corevm_gen as gen
+from ..impl import corevm_refgen as refgen
 from ..impl import valjson as vj
 from ..translate import corevm as trvm
 
@@ -253,6 +254,9 @@ def _extra_cases(rng, tier):
 def gen_cases(rng, tier):
     cases = gen.gen_cases(rng, tier)
     cases.extend(_extra_cases(rng, tier))
+    # one match statement over a reference reached several times with references of different kinds (second instance of a
+    # generic helper flow, next loop iteration, restart of an activated flow): harness/impl/corevm_refgen.py
+    cases.extend(refgen.cases(rng, tier))
     return cases
 
 
@@ -281,7 +285,10 @@ def snapshot(state):
         for hu, h in fs.heads.items():
             el = els[h.position] if 0 <= h.position < len(els) else None
             heads.append({"uid": hu, "pos": h.position, "status": h.status.value, "kind": _elem_kind(el),
-                          "name": cv.name_at(state, fs, h.position), "key_ok": hu == h.uid and h.flow_state_uid == uid,
+                          # the event the element waits for NOW (dispatcher's view, current context); `reg_name`: what it named
+                          # when the head was last registered (None: never registered through the interpreter's own function)
+                          "name": cv.waited_name_at(state, fs, h.position), "reg_name": cv.REC.regnames.get((uid, hu)),
+                          "key_ok": hu == h.uid and h.flow_state_uid == uid,
                           "cb": h.position_changed_callback is not None and h.status_changed_callback is not None})
         scopes_f, scopes_a = [], []
         for sc in fs.scopes.values():
@@ -352,6 +359,17 @@ def _model_event(ev):
     return d
 
 
+def _ref_vars(el):
+    """names under which a match element stores the matched event (`... as $e`)"""
+    r = getattr(getattr(el, "spec", None), "ref", None)
+    if not r:
+        return []
+    try:
+        return [r["elements"][0]["elements"][0].lstrip("$")]
+    except Exception:  # noqa
+        return ["?"]
+
+
 def _waited_event(state, item, started):
     """An external event built from what the k-th registered (non-internal) head is waiting for."""
     sm = cv.sm
@@ -388,6 +406,15 @@ def _waited_event(state, item, started):
         args[k0] = "other"
     ev = {"type": ref.name, **args}
     au = getattr(ref, "action_uid", None)
+    if not au and "Action" in ref.name and _ref_vars(els[pos]):
+        # the match stores the event in a reference (`match StartFooAction() as $e`, `match FooAction.Started() as $e`): hand in
+        # the event of a RUNNING action of that type (the runtime feeds every outgoing event back; the action server names the
+        # action), so that `$e.action` is an action
+        hit = [x for x in started if ref.name in ("Start" + x[1], x[1] + "Started", x[1] + "Updated")]
+        if hit:
+            ev["action_uid"] = hit[item[1] % len(hit)][0]
+        elif mode == "exact":
+            return None   # (the spurious event of an action nobody started is still sent in the other modes)
     if au:
         ev["action_uid"] = au
         if ref.name.endswith("Finished"):
@@ -437,6 +464,7 @@ def run_impl(case):
         auto = case.get("auto") or {}
         auto_n = {}
         budget_auto = 200
+        last_out = []
         while events:
             item = events.pop(0)
             step = {"item": item}
@@ -473,6 +501,14 @@ def run_impl(case):
                     step["noop"] = "nothing waited for"
                     obs["steps"].append(step)
                     continue
+            elif kind == "echo":
+                # an outgoing event of the previous step handed back as input — what RuntimeV2_x.process_events does with
+                # every outgoing event (`input_events.extend(new_outgoing_events)`)
+                if not last_out:
+                    step["noop"] = "nothing to echo"
+                    obs["steps"].append(step)
+                    continue
+                ev = dict(last_out[item[1] % len(last_out)])
             elif kind == "clock":
                 cv.REC.clock += float(item[1])
                 step["noop"] = "clock"
@@ -521,6 +557,8 @@ def run_impl(case):
                 if isinstance(oe.get("type"), str) and oe["type"].startswith("Stop") and oe["type"].endswith("Action"):
                     pass
             step["out"] = json.loads(json.dumps(out, default=str))
+            if state.outgoing_events:
+                last_out = [json.loads(json.dumps(oe, default=str)) for oe in state.outgoing_events if isinstance(oe.get("type"), str)]
             obs["steps"].append(step)
             if "exc" in step:
                 break
@@ -539,6 +577,10 @@ def run_impl(case):
             signal.setitimer(signal.ITIMER_REAL, 0)
         except Exception:  # noqa
             pass
+    # how many different event names ONE match statement was registered with during this case (1 for every statement whose
+    # name is static; >= 2: a reference statement reached with references of different kinds)
+    obs["stmt_names_max"] = max([len(v) for v in cv.REC.stmt_names.values()] or [0])
+    obs["stmt_multi"] = sorted({k[0] for k, v in cv.REC.stmt_names.items() if len(v) >= 2})
     # the oracle is evaluated here (in the worker) on the full snapshots; only what the comparisons need travels back
     obs["findings"] = _compute_findings(obs)
     obs["latent"] = _latent_regions(obs)
@@ -772,7 +814,19 @@ def check_snapshot(snap):
         by_key_w = {tuple(k): nm for nm, k in want}
         renamed = [e for e in stale if tuple(e[1]) in by_key_w]
         if renamed and len(missed) == len(stale) == len(renamed):
-            bad.append(("index-name-stale", f"head registered under {renamed[0][0]!r} but its element now names {by_key_w[tuple(renamed[0][1])]!r}"))
+            # every difference is a head filed under another name than the one its element names now.  Two different classes:
+            #   * the bucket IS the name the element named when the head was registered, and the name changed afterwards (a context
+            #     variable was reassigned while the head waited)                                  -> index-name-stale
+            #   * the bucket was never the element's name, not even at the moment of the registration (the name was not taken from
+            #     the current value of the reference: cached per statement / flow / position ...)  -> index-name-wrong-at-registration
+            reg = {(i["uid"], h["uid"]): h.get("reg_name") for i in snap["insts"] for h in i["heads"]}
+            wrong = [e for e in renamed if reg.get(tuple(e[1])) != e[0]]
+            if wrong:
+                e = wrong[0]
+                bad.append(("index-name-wrong-at-registration", f"head {e[1]} is filed under {e[0]!r} but its match element names {by_key_w[tuple(e[1])]!r} "
+                            f"(and named {reg.get(tuple(e[1]))!r} when the head was registered): the event of that name never reaches the head"))
+            else:
+                bad.append(("index-name-stale", f"head registered under {renamed[0][0]!r} but its element now names {by_key_w[tuple(renamed[0][1])]!r}"))
         else:
             sig = "index-missed" if missed and not stale else ("index-stale" if stale and not missed else "index-differs")
             bad.append((sig, f"index != scan: missed {missed[:3]} stale {stale[:3]}"))
@@ -908,15 +962,27 @@ def _latent_regions(obs):
     return sorted(out)
 
 
+def _lead(f):
+    """The finding a case is reported with: `index-name-stale` (the class of the open finding) only if there is nothing else."""
+    for x in f:
+        if x[0] != "index-name-stale":
+            return x
+    return f[0]
+
+
 def oracle(case, obs):
     f = _findings(case, obs)
-    return f[0][1] if f else None
+    return _lead(f)[1] if f else None
 
 
 def signature(case, obs, msg):
     f = _findings(case, obs)
     if f:
-        s = f[0][0]
+        s = _lead(f)[0]
+        # exactly the open finding: the head WAS filed under the name its element named at the moment of the registration
+        # (`check_snapshot` says `index-name-stale` only then) and a flow sharing the context reassigned the variable while the
+        # head waited.  A head filed under a name its element did not name even when it was registered is another class
+        # (`index-name-wrong-at-registration`), whatever the program does with contexts.
         if s == "index-name-stale" and gen.shares_context(case):
             return "index-name-stale:shared-context"
         return s
@@ -968,6 +1034,8 @@ def tags(case, obs):
             t.append("op-problem")
         if st.get("choices"):
             t.append("tie-break")
+    t.append("stmt-names-max:" + str(obs.get("stmt_names_max", 0)))
+    t.extend("stmt-multi-name-in:" + f for f in obs.get("stmt_multi", []))
     nb = sum(len(st.get("loops", [])) for st in obs["steps"])
     t.append("loop-boundaries:" + str(min(2000, nb // 50 * 50)))
     for st in obs["steps"]:
@@ -997,4 +1065,5 @@ def escalate(rng, case, tier):
         for _ in range(100):
             out.append(dict(case, history=_history_x(rng, rng.randrange(2, 30)), tie_seed=rng.randrange(1 << 30)))
     out.extend(_extra_cases(rng, "quick"))
+    out.extend(refgen.cases(rng, "quick"))
     return out
